@@ -13,3 +13,4 @@ import FinProtoc.Props.C16
 #print axioms FinProtoc.Props.compile_nowhere_else
 #print axioms FinProtoc.Props.compile_refuses
 #print axioms FinProtoc.Props.compile_accepts
+#print axioms FinProtoc.Props.writeCode_order_free
